@@ -366,6 +366,8 @@ func (s *Solver) Check(extra *term.Term, vars []*term.Term) (Result, map[string]
 		if model == nil {
 			res = Unknown
 		}
+	} else if res == Sat {
+		model = map[string]uint64{} // nothing symbolic on this path: the empty assignment is the model (never nil for Sat)
 	}
 	s.raw("(pop 1)\n")
 	switch res {
